@@ -261,7 +261,9 @@ theorem cc_fqdn (start : Nat) (d : Bytes) (hp : start + 2 ≤ d.length) :
 theorem cc_multisession (len start : Nat) (d : Bytes) (hp : start + 2 ≤ d.length) :
     (∃ c', (if len = 0 then Outcome.err
         else match (⟨d, start + 2⟩ : Cur).advance 1 with
-          | .ok c => c.advance (len - 1)
+          | .ok c => (match usub len 1 with
+            | some k => c.advance k
+            | none => .panic)
           | .err => .err
           | .panic => .panic) = Outcome.ok c') ↔
     (if (len != 0 && decide (len ≤ (d.drop (start + 2)).length)) = true then Outcome.ok () else Outcome.err) =
@@ -272,7 +274,7 @@ theorem cc_multisession (len start : Nat) (d : Bytes) (hp : start + 2 ≤ d.leng
   · simp only [h0, if_false]
     by_cases h1 : start + 2 + 1 ≤ d.length
     · rw [adv_le h1]
-      simp only
+      simp only [usub_some (show 1 ≤ len by omega)]
       by_cases h2 : start + 2 + 1 + (len - 1) ≤ d.length
       · rw [adv_le h2]
         have : len ≤ d.length - (start + 2) := by omega
@@ -711,6 +713,8 @@ theorem openParse_check (bs : Bytes) (n : Nat) (h : openParse bs = .ok n) :
             | ok c2 =>
               simp only [hp] at hc
               obtain ⟨rfl, hpc⟩ := paramLoop_check bs (oplb.toNat + 1) oplb.toNat (19 + 9 + 1) (by omega) (by omega) c2 hp
+              rw [usub_some (Nat.zero_le _)] at hc
+              simp only at hc
               split at hc
               · simp at hc
               · rename_i hlen'
@@ -969,6 +973,7 @@ theorem openCheck_parse (m tail : Bytes) (h : Open.openCheck m = .ok ()) :
         rw [show 19 + 9 + 1 = 29 from rfl, hdrop29, ← hps]; simp
       rw [this]; exact hpc)
   rw [hpl]; simp only
+  rw [usub_some (Nat.zero_le _)]; simp only
   have : ¬ (19 + 9 + 1 + opl.toNat - 0 ≠ m.length) := by simp; omega
   simp only [this, if_false]
   rw [seek_data rfl (by omega)]; simp only
